@@ -186,8 +186,19 @@ theorem auditPath_fold (H : Bytes → Bytes) (l : List Bytes) :
     rw [List.getElem?_eq_getElem hlt] at hp
     exact (Option.some.inj hp).symm
 
-theorem auditPath_length_flags (H : Bytes → Bytes) (l : List Bytes) (i : Nat) :
-    ∀ p ∈ auditPath H l i, True := fun _ _ => trivial
+theorem auditPath_flags (H : Bytes → Bytes) (l : List Bytes) :
+    ∀ i, (auditPath H l i).map Part.isLeft = pathShape l.length i := by
+  induction l using root.induct H with
+  | case1 => intro i; rw [auditPath, pathShape]; simp
+  | case2 a => intro i; rw [auditPath, pathShape]; simp
+  | case3 a b rest ih =>
+    intro i
+    rw [auditPath, pathShape]
+    have : ¬ (a :: b :: rest).length ≤ 1 := by simp
+    rw [dif_neg this, List.map_cons, ih (i / 2), pairUp_length]
+    congr 1
+    unfold sibling
+    split <;> simp [*]
 
 /-! ### soundness as a collision reduction -/
 
